@@ -82,9 +82,12 @@ func TimeFromTime64(t Time64, t0 time.Time) time.Time {
 	sec := epoch + (tref-epoch)/secondsPerEra*secondsPerEra + int64(t.Seconds)
 
 	// If the timestamp would be too far in the past relative to
-	// the reference time, assume it's from the next era
+	// the reference time, assume it's from the next era; if it would
+	// be too far in the future, assume it's from the previous era
 	if sec < tref-secondsPerEra/2 {
 		sec += secondsPerEra
+	} else if sec >= tref+secondsPerEra/2 {
+		sec -= secondsPerEra
 	}
 
 	// nsec := (int64(t.Fraction)*nanosecondsPerSecond + 1<<31) >> 32
